@@ -147,10 +147,11 @@ def run(ctx, drv):
         for p in instances(name, rng, ctx.quick()):
             desc = f"{name}(nobjs={p.nobjs}, nvars={p.nvars})"
             s = None
+            held = {}
             for pi, x in enumerate(points(p, rng, per)):
                 # every other point re-uses the previous Solution object (new variables, evaluated again): evaluation is a
                 # function of the variables it is given now, not of what the object held before
-                if s is None or pi % 2 == 0:
+                if s is None or pi % 2 == 0 or pi == 1:      # (the very first solution of a problem object is kept, not re-used)
                     s = C.Solution(p)
                 s.variables[:] = x
                 r = call(s.evaluate)
@@ -162,6 +163,7 @@ def run(ctx, drv):
                         ctx.failures[-1]["input_class"] = f"{name}:{r}"
                     continue
                 objs, cons = list(s.objectives), list(s.constraints)
+                held[id(s)] = (s, inp, repr(objs), repr(cons))
                 if len(objs) != p.nobjs or not all(is_real_scalar(o) for o in objs):
                     ctx.fail("objectives-not-declared-number-of-finite-reals", inp, repr(objs)[:200], f"{p.nobjs} finite real values", f"problems.{name}.evaluate")
                     ctx.failures[-1]["input_class"] = f"{name}:objective-arity"
@@ -226,6 +228,13 @@ def run(ctx, drv):
                                  v2, v1, f"problems.{name}.evaluate")
                         break
             ctx.count("repeat_evaluations", 6)
+            # ---------------- and what a solution was given stays with it: every solution evaluated above still holds the values of
+            # its own evaluation after all the later evaluations on the same problem object
+            for s_h, inp_h, o_h, c_h in held.values():
+                if repr(list(s_h.objectives)) != o_h or repr(list(s_h.constraints)) != c_h:
+                    ctx.fail("values-of-an-evaluated-solution-changed-by-later-evaluations", dict(inp_h, held_after_its_evaluation=[o_h, c_h]),
+                             [repr(list(s_h.objectives)), repr(list(s_h.constraints))], "unchanged", f"problems.{name}.evaluate / core.Problem.__call__")
+                    break
             # ---------------- Pareto samplers
             if hasattr(p, "random") and (name.startswith("DTLZ") or name.startswith("WFG")):
                 import random as _random
